@@ -9,8 +9,9 @@ var vRootMenu = []string{"/", "/a", "/a/", "/a/b", "/ab", "/{x}", "/a/{x}", "/a/
 
 // registration model: what a container should contain after a history
 type vRegSvc struct {
-	idx   int // index into vRootMenu
-	extra int // how many copies of the extra route GET /x are present (0..2)
+	idx   int  // index into vRootMenu
+	extra int  // how many copies of the extra route GET /x are present (0..2)
+	twin  bool // the route GET /x/ (same path up to the trailing slash) is present
 }
 
 type vRegState struct {
@@ -48,6 +49,12 @@ func (w *vRegWorld) addExtra(idx int) {
 	s.Route(s.GET("/x").To(func(req *Request, resp *Response) { *w.hits = append(*w.hits, name) }))
 }
 
+func (w *vRegWorld) addTwin(idx int) {
+	s := w.service(idx)
+	name := "ws" + vItoa(idx) + "/x/"
+	s.Route(s.GET("/x/").To(func(req *Request, resp *Response) { *w.hits = append(*w.hits, name) }))
+}
+
 func (w *vRegWorld) handlePlain() {
 	w.c.Handle("/plain", http.HandlerFunc(func(rw http.ResponseWriter, r *http.Request) {
 		*w.hits = append(*w.hits, "plain")
@@ -55,7 +62,8 @@ func (w *vRegWorld) handlePlain() {
 	}))
 }
 
-// op codes: 10+i Add(menu i); 30+i Remove(menu i); 50+i Route GET /x on service i; 70+i RemoveRoute on i; 90 Handle(/plain)
+// op codes: 10+i Add(menu i); 30+i Remove(menu i); 50+i Route GET /x on service i; 70+i RemoveRoute(GET /x) on i;
+// 110+i Route GET /x/ on service i; 90 Handle(/plain)
 func (st *vRegState) find(idx int) int {
 	for k, s := range st.svcs {
 		if s.idx == idx {
@@ -99,6 +107,14 @@ func vApply(w *vRegWorld, st *vRegState, op int) bool {
 		}
 		w.service(idx).RemoveRoute(strings.TrimRight(vRootMenu[idx], "/")+"/x", "GET")
 		st.svcs[k].extra = 0 // RemoveRoute removes every route with that method and path
+	case op >= 110 && op < 130: // Route GET /x/ (slash twin of the extra route)
+		idx := op - 110
+		k := st.find(idx)
+		if k < 0 || st.svcs[k].twin {
+			return false
+		}
+		w.addTwin(idx)
+		st.svcs[k].twin = true
 	case op == 90:
 		if st.plain {
 			return false
@@ -118,6 +134,9 @@ func vFresh(st vRegState, hits *[]string) *vRegWorld {
 		ws := w.service(s.idx)
 		for n := 0; n < s.extra; n++ {
 			w.addExtra(s.idx)
+		}
+		if s.twin {
+			w.addTwin(s.idx)
 		}
 		w.c.Add(ws)
 	}
